@@ -11,7 +11,7 @@ from ..rt import *
 from ..values import *
 from spec import cdb as refcdb
 
-SHARED_KINDS = ("class-store", "global-store", "static-mutation")
+SHARED_KINDS = ("class-store", "global-store", "static-mutation", "memo-store")
 
 
 def sym_arg(I, name):
@@ -30,6 +30,8 @@ def effect_key(e):
         return "store global %s.%s" % (e["module"], e["name"])
     if e["kind"] == "static-mutation":
         return "mutation of %s" % (e.get("origin"),)
+    if e["kind"] == "memo-store":
+        return "memoised result of %s (one object shared by all calls with equal arguments)" % e.get("func")
     return e["kind"]
 
 
@@ -92,6 +94,28 @@ def check(prog, run):
                     run.violation("no-alias-of-shared-object", "%s.%s" % (key.split(":")[1], an),
                                   "cmd.%s is the shared object %s (a default argument / class-level container): mutating one command's "
                                   "buffer changes every later command" % (an, I.static_ids[id(av)]), prog.rel(cls.module), init.node.lineno, key)
+            # ... nor hand out, through its public buffers, an object that lives on a class (the instance never got its own)
+            for an in ("cdb", "dataout", "datain", "result"):
+                def rd(c=c, an=an):
+                    return I.get_attr(c.inst, an, None, _F())
+                ps = I.explore(rd, max_paths=4)
+                for p in ps:
+                    if not p.returned or not isinstance(p.value, (dict, list, Buf)):
+                        continue
+                    owner = None
+                    for k in c.inst.cls.mro():
+                        for cn, cv in k.attrs.items():
+                            if cv is p.value:
+                                owner = "%s.%s" % (k.name, cn)
+                    if owner is None and id(p.value) in I.static_ids:
+                        owner = I.static_ids[id(p.value)]
+                    if owner is not None:
+                        run.violation("no-alias-of-shared-object", "%s.%s" % (key.split(":")[1], an),
+                                      "cmd.%s of a freshly built %s (%s) is the class-level object %s: every command that did not get its "
+                                      "own buffer shares it, and what one command (or the transport, for it) writes there is seen by the others"
+                                      % (an, key.split(":")[1], c.label(), owner), prog.rel(cls.module), init.node.lineno, key)
+                    else:
+                        run.ok("no-alias-of-shared-object", "%s.%s" % (key.split(":")[1], an), nontrivial=False)
     # 2. every decoder on a symbolic device buffer, every marshaller / parser pair on the
     #    enumerated shapes of spec/roundtrip.py, every parameter-list constructor of spec/paramlists.py
     from ..decoders import install_decoder_watches
@@ -188,10 +212,12 @@ def check(prog, run):
                       facts={"readers": readers})
     # 3. behavioural confirmation on ordered pairs
     reps = ["Read10", "Read16", "Write12", "Inquiry", "TestUnitReady", "ReportLuns", "ModeSense6", "ATAPassThrough16", "MoveMedium",
-            "PersistentReserveInReadKeys", "ReadCd", "ExtendedCopy", "GetLBAStatus", "WriteSame16"]
+            "PersistentReserveInReadKeys", "ReadCd", "ExtendedCopy", "GetLBAStatus", "WriteSame16", "ReadCapacity10",
+            "InitializeElementStatus", "ReadCapacity16", "PersistentReserveOut"]
     keys = sorted(k for k in first_con if k.split(":")[1] in reps)
     npairs = 0
     broken = []
+    hist = []
     for ka in keys:
         for kb in keys:
             if ka == kb:
@@ -210,7 +236,9 @@ def check(prog, run):
                 a = build(ca, ea)
                 built = [e for e in I.events if e["kind"] == "build_cdb"][-1]["kwargs"]
                 cdb_a = I.get_attr(a, "cdb", None, _F())
-                build(cb, eb)
+                b_after = build(cb, eb)
+                I.event("b-after-a", cdb=I.get_attr(b_after, "cdb", None, _F()), dataout=b_after.attrs.get("_dataout"),
+                        datain=b_after.attrs.get("_datain"), a=a)
                 dec = I.call(I.get_attr(ca.cls, "unmarshall_cdb", None, _F()), [cdb_a], {}, None, _F())
                 enc = I.call(I.get_attr(ca.cls, "marshall_cdb", None, _F()), [dict(built)], {}, None, _F())
                 return dec, built, enc, cdb_a
@@ -221,6 +249,16 @@ def check(prog, run):
             for p in ps:
                 if not p.returned:
                     continue
+                # (i) B built right after A is the B that is built alone; (ii) the two objects share no buffer
+                from ..images import same_value
+                for ev in p.events:
+                    if ev["kind"] == "b-after-a":
+                        alone = cb.inst
+                        if not same_value(ev["cdb"], alone.attrs.get("_cdb")):
+                            hist.append((ka.split(":")[1], kb.split(":")[1], "cdb %r instead of %r" % (ev["cdb"], alone.attrs.get("_cdb"))))
+                        for an in ("_dataout", "_datain", "_cdb"):
+                            if isinstance(ev["a"].attrs.get(an), Buf) and any(ev["a"].attrs.get(an) is x for x in (ev["dataout"], ev["datain"], ev["cdb"])):
+                                hist.append((ka.split(":")[1], kb.split(":")[1], "the two commands share the buffer object %s" % an))
                 dec, built, enc, cdb_a = p.value
                 table = ca.cls.lookup("_cdb_bits")[0]
                 same_keys = isinstance(dec, dict) and set(dec.keys()) == set(table.keys())
@@ -238,6 +276,13 @@ def check(prog, run):
                       prog.rel(prog.module(CMD_MOD)), None, CMD_MOD + ":SCSICommand.unmarshall_cdb", facts={"first_pairs": broken[:5]})
     else:
         run.ok("class-decode-independent-of-history", "all ordered pairs", {"pairs": npairs})
+    if hist:
+        a, b, what = hist[0]
+        run.violation("construction-independent-of-history", "command built right after another command",
+                      "%d of %d ordered class pairs: e.g. %s built right after %s: %s" % (len(hist), npairs, b, a, what),
+                      prog.rel(prog.module(CMD_MOD)), None, CMD_MOD + ":SCSICommand.__init__", facts={"first": hist[:5]})
+    else:
+        run.ok("construction-independent-of-history", "all ordered pairs", {"pairs": npairs})
     run.count("functions", nfunc)
     run.count("ordered_pairs", npairs)
     run.floor("functions analysed", nfunc, 80)
